@@ -2,6 +2,7 @@ package currency
 
 import (
 	"fmt"
+	"math"
 
 	"github.com/invopop/gobl/cal"
 	"github.com/invopop/gobl/cbc"
@@ -61,8 +62,16 @@ func (er *ExchangeRate) Convert(amount num.Amount) num.Amount {
 	z := er.To.Def().Zero()
 	// work with at least the destination currency's precision, otherwise an
 	// amount written with fewer decimals (e.g. "100") loses the fraction
-	a := amount.MatchPrecision(z).Multiply(er.Amount)
-	return a.Rescale(z.Exp()) // ensure scale always matches destination currency
+	a := amount.MatchPrecision(z)
+	if a.Exp() > z.Exp() {
+		// the amount is finer than the destination currency: round the product
+		// once, straight to the destination's precision, instead of first to the
+		// amount's decimals and then again (1.00 at 100.496 is 100, not 101)
+		v := float64(a.Value()) * float64(er.Amount.Value())
+		v = v / math.Pow10(int(er.Amount.Exp()+a.Exp()-z.Exp()))
+		return num.MakeAmount(int64(math.Round(v)), z.Exp())
+	}
+	return a.Multiply(er.Amount) // scale always matches destination currency
 }
 
 // MatchExchangeRate will attempt to find the matching exchange rate that
